@@ -1,6 +1,9 @@
 //! Run-time driver: replays TLC-generated cases through the real ts-rs code (built from /repo's
 //! working tree with `--cfg ts_rs_verif`) and writes observations as ndjson.
+mod dump;
+mod history;
 mod paths;
+mod universe;
 
 fn main() {
     // a panic of the code under test is data (recorded by catch_unwind), not noise on stderr
@@ -12,6 +15,8 @@ fn main() {
     let rest = &args[2.min(args.len())..];
     let rc = match sub {
         "paths" => paths::main(rest),
+        "universe" => dump::main(rest),
+        "history" => history::main(rest),
         _ => {
             eprintln!("usage: rt <paths|...> ...");
             2
